@@ -379,6 +379,68 @@ def _seq_nontrivial(a, r, exc):
 
 # -- part 3: engine-level invariant ----------------------------------------------------------------
 
+# ---------------------------------------------------------------------------------------------
+# Moves of existing rows into crowded gaps (through the engine).
+def _move_cases(tier, seed):
+  crowd = (0, 3, 51, 53, 56) if tier == "quick" else (0, 1, 3, 20, 48, 50, 51, 52, 53, 54, 56, 60)
+  for k in crowd:                       # number of rows squeezed in right before row 3
+    for mover in (1, 2, 4, "last-inserted"):
+      for target in (3, 2, "end", "same"):
+        yield dict(crowd=k, mover=mover, target=target)
+
+
+def _move_call(a):
+  from vlib.rtc import eng
+  e = eng.new_engine()
+  eng.apply(e, [["AddTable", "T", [{"id": "a", "type": "Int", "isFormula": False, "formula": ""}]],
+                ["BulkAddRecord", "T", [None] * 4, {"a": [1, 2, 3, 4]}]])
+  def positions():
+    td = e.fetch_table("T")
+    return dict(zip(td.row_ids, td.columns["manualSort"]))
+  for i in range(a["crowd"]):           # each insert goes right before row 3: halves the gap
+    eng.apply(e, [["AddRecord", "T", None, {"manualSort": positions()[3]}]])
+  before = positions()
+  mover = max(before) if a["mover"] == "last-inserted" else a["mover"]
+  if a["target"] == "end": want = float("inf")
+  elif a["target"] == "same": want = before[mover]
+  else: want = before[a["target"]]
+  eng.apply(e, [["UpdateRecord", "T", mover, {"manualSort": want}]])
+  return dict(before=before, after=positions(), mover=mover, want=want)
+
+
+def _order(pos, skip=None):
+  return [r for r, _ in sorted(pos.items(), key=lambda kv: (kv[1], kv[0])) if r != skip]
+
+
+def _e_move_order(a, r):
+  if _order(r["before"], r["mover"]) != _order(r["after"], r["mover"]):
+    return "rows other than the moved one changed order: %r -> %r" % (
+      _order(r["before"], r["mover"]), _order(r["after"], r["mover"]))
+  return True
+
+
+def _e_move_place(a, r):
+  """The moved row goes where its requested position falls among the OTHER rows (before rows
+  whose old position equals the request)."""
+  others = _order(r["before"], r["mover"])
+  expected_next = [x for x in others if r["before"][x] >= r["want"]]
+  seq = _order(r["after"])
+  i = seq.index(r["mover"])
+  got_next = seq[i + 1] if i + 1 < len(seq) else None
+  want_next = expected_next[0] if expected_next else None
+  if got_next != want_next:
+    return "moved row %r landed before %r, requested position %r falls before %r" % (
+      r["mover"], got_next, r["want"], want_next)
+  return True
+
+
+def _e_move_distinct(a, r):
+  vals = list(r["after"].values())
+  if len(set(vals)) != len(vals): return "duplicate positions after the move"
+  if any(v != v or v in (float("inf"), float("-inf")) for v in vals): return "non-finite position"
+  return True
+
+
 def _monitor_base():
   from vlib.rtc import explore
   return explore.Monitor
@@ -587,6 +649,17 @@ def main():
     ensures={c: _clause(c) for c in CLAUSES + ("C20.harness",)}, classify=_classify,
     nontrivial=_seq_nontrivial)
   fn.check(rep, seq, sequence_cases, exhaustive=False, limit_quick_s=6, limit_thorough_s=200)
+
+  # run-time contract on PositionColumn.prepare_new_values through the real engine: MOVES of
+  # existing rows (UpdateRecord of manualSort) into gaps crowded enough to need relabeling
+  moves = fn.FnContract(
+    name="column.PositionColumn.prepare_new_values (moves of existing rows via UpdateRecord)",
+    call=_move_call, ensures={"C20.move_keeps_others_in_order": _e_move_order,
+                              "C20.move_lands_at_requested_place": _e_move_place,
+                              "C20.positions_distinct_finite_after_move": _e_move_distinct},
+    classify=lambda a, clause, detail: clause)
+  fn.check(rep, moves, _move_cases, exhaustive=True, limit_quick_s=30, limit_thorough_s=200,
+           warm_engine=True)
 
   from vlib.rtc import explore
   explore.explore(rep, "checks.C20", "PositionsMonitor", n_quick=48, n_thorough=6000,
